@@ -11,8 +11,11 @@ use std::sync::atomic::{AtomicUsize, Ordering};
 pub struct Counting;
 static CUR: AtomicUsize = AtomicUsize::new(0);
 static PEAK: AtomicUsize = AtomicUsize::new(0);
+/// the probe child refuses single requests above this size (so a hostile count aborts it the same way on every machine)
+pub static ALLOC_LIMIT: AtomicUsize = AtomicUsize::new(usize::MAX);
 unsafe impl GlobalAlloc for Counting {
     unsafe fn alloc(&self, l: Layout) -> *mut u8 {
+        if l.size() > ALLOC_LIMIT.load(Ordering::Relaxed) { return std::ptr::null_mut(); }
         let p = System.alloc(l);
         if !p.is_null() {
             let c = CUR.fetch_add(l.size(), Ordering::Relaxed) + l.size();
@@ -30,6 +33,58 @@ fn peak_during<T>(f: impl FnOnce() -> T) -> (T, usize) {
     PEAK.store(base, Ordering::Relaxed);
     let r = f();
     (r, PEAK.load(Ordering::Relaxed).saturating_sub(base))
+}
+
+/// child process mode (`corr --c17-probe`): parse each line's bytes and answer `k`. A parser that sizes a buffer from a
+/// count field of the input kills this process, not the harness; the parent then knows which input did it.
+pub fn probe_main() {
+    use std::io::{BufRead, Write};
+    ALLOC_LIMIT.store(1 << 30, Ordering::Relaxed);
+    let stdin = std::io::stdin();
+    let mut out = std::io::stdout();
+    for l in stdin.lock().lines() {
+        let l = match l { Ok(l) => l, Err(_) => break };
+        let w: Vec<&str> = l.split_whitespace().collect();
+        match w.as_slice() {
+            ["pth", h] => { let _ = read_pth(&unhex(h)); },
+            ["smx", h] => { let _ = read_smx(&unhex(h)); },
+            _ => {},
+        }
+        let _ = out.write_all(b"k\n");
+        let _ = out.flush();
+    }
+}
+
+struct Probe { child: std::process::Child, stdin: std::process::ChildStdin, stdout: std::io::BufReader<std::process::ChildStdout> }
+static PROBE: std::sync::Mutex<Option<Probe>> = std::sync::Mutex::new(None);
+pub static PROBED: AtomicUsize = AtomicUsize::new(0);
+
+/// true = the probe child parsed the input and is still alive
+fn probe_survives(fmt: &str, bytes: &[u8]) -> bool {
+    use std::io::{BufRead, Write};
+    use std::process::{Command, Stdio};
+    let mut g = PROBE.lock().unwrap();
+    if g.is_none() {
+        let exe = std::env::current_exe().expect("own path");
+        let mut child = Command::new(exe).arg("--c17-probe").stdin(Stdio::piped()).stdout(Stdio::piped()).stderr(Stdio::null()).spawn().expect("probe child");
+        let stdin = child.stdin.take().unwrap();
+        let stdout = std::io::BufReader::new(child.stdout.take().unwrap());
+        *g = Some(Probe { child, stdin, stdout });
+    }
+    let p = g.as_mut().unwrap();
+    let _ = PROBED.fetch_add(1, Ordering::Relaxed);
+    let sent = p.stdin.write_all(format!("{} {}\n", fmt, hex(bytes)).as_bytes()).and_then(|_| p.stdin.flush()).is_ok();
+    let mut reply = String::new();
+    let alive = sent && matches!(p.stdout.read_line(&mut reply), Ok(n) if n > 0) && reply.trim() == "k";
+    if !alive {
+        let mut dead = g.take().unwrap();
+        let _ = dead.child.kill();
+        let _ = dead.child.wait();
+    }
+    alive
+}
+fn probe_shutdown() {
+    if let Some(mut p) = PROBE.lock().unwrap().take() { drop(p.stdin); let _ = p.child.wait(); }
 }
 
 fn pth_tok(p: &Pth) -> String {
@@ -74,6 +129,7 @@ fn wr<T>(r: Option<Result<T, ()>>, f: impl Fn(&T) -> String) -> String {
 pub fn pth_case(ctx: &mut Ctx, bytes: &[u8], class: &str, model_line: bool) {
     let op = format!("pth {}", hex(bytes));
     let len = bytes.len();
+    if !probe_survives("pth", bytes) { return aborted(ctx, "pth", class, &op, model_line); }
     let (r, peak) = peak_during(|| read_pth(bytes));
     let line = match &r {
         None => "panic".to_string(),
@@ -88,6 +144,7 @@ pub fn pth_case(ctx: &mut Ctx, bytes: &[u8], class: &str, model_line: bool) {
 pub fn smx_case(ctx: &mut Ctx, bytes: &[u8], class: &str, model_line: bool) {
     let op = format!("smx {}", hex(bytes));
     let len = bytes.len();
+    if !probe_survives("smx", bytes) { return aborted(ctx, "smx", class, &op, model_line); }
     let (r, peak) = peak_during(|| read_smx(bytes));
     let line = match &r {
         None => "panic".to_string(),
@@ -97,6 +154,11 @@ pub fn smx_case(ctx: &mut Ctx, bytes: &[u8], class: &str, model_line: bool) {
     if model_line { ctx.case(&op, &line); } else { ctx.oracle_eval(&format!("smx-{}", class)); }
     file_oracle(ctx, "smx", class, &op, len, peak, r.as_ref().map(|r| r.as_ref().map(|(p, rem)| (smx_tok(p), *rem, write_smx(p))).map_err(|_| ())), bytes,
         &|b| read_smx(b).and_then(|r| r.ok()).map(|(p, _)| smx_tok(&p)));
+}
+
+fn aborted(ctx: &mut Ctx, fmt: &str, class: &str, op: &str, model_line: bool) {
+    if model_line { ctx.case(op, "abort"); } else { ctx.oracle_eval(&format!("{}-{}", fmt, class)); }
+    ctx.violation(&format!("c17/{}/allocation-abort/{}", fmt, class), "parsing this input killed the process: a single allocation request above 1 GiB (a buffer sized from a count field of the input)", &truncate(op, 300), "value or error", "process abort");
 }
 
 #[allow(clippy::too_many_arguments)]
@@ -158,6 +220,12 @@ fn gen_smx(rng: &mut Rng, no: usize, nc: usize) -> Smx {
 }
 
 pub fn run(ctx: &mut Ctx) {
+    run_inner(ctx);
+    probe_shutdown();
+    ctx.count(&format!("inputs parsed first in the probe child process (single allocations above 1 GiB refused): {}", PROBED.load(Ordering::Relaxed)));
+}
+
+fn run_inner(ctx: &mut Ctx) {
     if let Some(lines) = ctx.replay.clone() {
         for l in lines {
             let w: Vec<&str> = l.split_whitespace().collect();
